@@ -255,7 +255,7 @@ def cases(tier, seed):
         for keep in KEEP:
             # inductive step: arbitrary cache pre-state (<= keep chunks),
             # all insertion orders of every subset of chunk indices 0..3
-            maxidx = min(3, Lmax // cs)
+            maxidx = min(3, (Lmax - 1) // cs)     # chunk must exist
             for r in range(0, keep + 1):
                 for sub in itertools.permutations(range(maxidx + 1), r):
                     out.append(("step cs=%d keep=%d pre=%s" % (cs, keep, sub),
